@@ -202,6 +202,33 @@ func EdFamilies(rng *rand.Rand, nKeys int, nSpecialSq int) []EdCase {
 			n++
 		}
 	}
+	// small-order A, R = [S mod L]B: the equation holds for EVERY S, so acceptance is decided by the S < L gate alone.
+	// S runs over structured 256-bit values aimed at the minimality test (top-byte classes x low parts around
+	// L - 2^252, words of L +-1, zeros, ones).
+	c252 := new(big.Int).Sub(ref.L, new(big.Int).Lsh(big.NewInt(1), 252))
+	var svals []*big.Int
+	for top := int64(0x0f); top <= 0x21; top++ {
+		hi := new(big.Int).Lsh(big.NewInt(top), 248)
+		for _, lo := range []*big.Int{big.NewInt(0), big.NewInt(1), new(big.Int).Sub(c252, big.NewInt(1)), c252, new(big.Int).Add(c252, big.NewInt(1)), new(big.Int).Lsh(big.NewInt(1), 128), new(big.Int).Sub(new(big.Int).Lsh(big.NewInt(1), 248), big.NewInt(1)), new(big.Int).Lsh(big.NewInt(1), 247)} {
+			svals = append(svals, new(big.Int).Add(hi, lo))
+		}
+	}
+	for _, top := range []int64{0x7f, 0x80, 0xff} {
+		svals = append(svals, new(big.Int).Add(new(big.Int).Lsh(big.NewInt(top), 248), c252))
+	}
+	svals = append(svals, SBoundaries()...)
+	for i, sv := range svals {
+		if sv.BitLen() > 256 {
+			continue
+		}
+		if nSpecialSq > 0 && nKeys < 20 && i%3 != int(rng.IntN(3)) {
+			continue
+		}
+		a := Tors[rng.IntN(8)]
+		Rb := ref.Encode(ref.B.Mul(new(big.Int).Mod(sv, ref.L)))
+		msg := []byte{byte(i), byte(rng.IntN(256))}
+		cases = append(cases, EdCase{"S-structured/small-order-A", mon.Hex(ref.Encode(a)), mon.Hex(msg), mon.Hex(append(Rb, le32Big(sv)...)), 0, ""})
+	}
 	return cases
 }
 
